@@ -368,13 +368,24 @@ PROPS = {
         "design_ref": "DESIGN.md §5 C27",
         "level_text": "Partial (parse side, nesting only): inside nested content every opener of a module / component deepens the tracked nesting by one and every End ends one level, at any depth, and such payloads are left to the recursive call; an own child deepens it by exactly one and is parsed from exactly its own byte range (or reported if that range leaves the input); the run-length record of the section order denotes the items in stream order. After fix F24 (content nested three levels deep was parsed twice).",
     },
+    "C23": {
+        "title": "Side-effect report lists exactly the tagged additions and probes",
+        "units": ["V12_sections"],
+        "obligations": ["V12_sections.encode_exports.one_record_per_live_tagged_export", "V12_sections.encode_exports.no_other_records", "V12_sections.fn:Module::encode_exports",
+                        "V12_sections.encode_imports.one_record_per_live_tagged_import", "V12_sections.fn:Module::encode_imports",
+                        "V12_sections.fn:Export as TagUtils::get_tag", "V12_sections.fn:Import as TagUtils::get_tag"],
+        "glue": ["ASSUMED: add_injection (a HashMap entry().and_modify(closure).or_insert() chain) appends the record to the list of its kind and touches nothing else; #[derive(Clone)] of Tag and String::clone yield equal values; str::to_string is modelled by an uninterpreted str_owned",
+                 "only the Import and Export records are decided. Records for types, functions, locals, globals, memories, data, tables, elements and probes (add_injections / add_opcode_injections / add_corrected_special_injections: closure-based, over HashMaps) are NOT under contract; that probe bodies use the encoded index space follows only from V11 (every injected operator is remapped in place before the records are built) and is not stated as a clause",
+                 "that items of the parsed module carry no tag (so get no record) is a property of parse_internal (it builds every item with tag None): read, not proved"],
+        "design_ref": "DESIGN.md §5 C23",
+        "level_text": "Partial (two of twelve record kinds): when side effects are pulled, the report gains exactly one Export record per live tagged export and exactly one Import record per live tagged import - with the item's own name / kind / index resp. module / name / type and its tag - and no record for untagged or deleted ones; nothing else in the report changes in those two loops. After fix F25.",
+    },
 }
 
 HOOK_COMMITS = ["6108179", "dd5c5ea", "537dc3a", "193503a"]
 
 NOT_APPLICABLE = {
     "C16": "behavioural equivalence of original and instrumented module needs a WebAssembly execution semantics and a simulation proof; neither installed deductive verifier has one, and a syntactic contract cannot express it",
-    "C23": "the side-effect report is assembled inside encode_internal and in closure-based add_injections that push into HashMap<InjectType, Vec<_>> through the entry API: outside Verus' supported subset, and a non-empty HashMap is out of Kani's reach (>100 s per operation, memory blow-up)",
 }
 
 for _p in PROPS.values():
